@@ -588,6 +588,12 @@ let rec fold_right f a0 = function
 | [] -> a0
 | b :: t -> f b (fold_right f a0 t)
 
+(** val existsb : ('a1 -> bool) -> 'a1 list -> bool **)
+
+let rec existsb f = function
+| [] -> false
+| a :: l0 -> (||) (f a) (existsb f l0)
+
 (** val forallb : ('a1 -> bool) -> 'a1 list -> bool **)
 
 let rec forallb f = function
@@ -2447,6 +2453,28 @@ and pr_stmts n0 = function
 
 let print_block b =
   pr_block O b
+
+(** val exp_vars : cexp -> char list list **)
+
+let rec exp_vars = function
+| CVar x -> x :: []
+| CBin (_, a, b) -> app (exp_vars a) (exp_vars b)
+| CUn (_, a) -> exp_vars a
+| CNot a -> exp_vars a
+| CDeref a -> exp_vars a
+| CCall (_, args) -> args_vars args
+| CMeth (o, _, _, args) -> app (exp_vars o) (args_vars args)
+| CField (o, _, _) -> exp_vars o
+| CCast (_, a) -> exp_vars a
+| CSubI (a, b) -> app (exp_vars a) (exp_vars b)
+| COpaque (_, ids) -> ids
+| _ -> []
+
+(** val args_vars : cexps -> char list list **)
+
+and args_vars = function
+| CNil -> []
+| CCons (e, r) -> app (exp_vars e) (args_vars r)
 
 (** val d_cexp_fuel : nat -> sexp -> cexp option **)
 
@@ -7863,6 +7891,413 @@ let run_run = function
                | None -> bad_input)
             | _ :: _ -> bad_input))))
 
+type lvl =
+| LClean
+| LSet
+| LAny
+
+(** val lvl_eqb : lvl -> lvl -> bool **)
+
+let lvl_eqb a b =
+  match a with
+  | LClean -> (match b with
+               | LClean -> true
+               | _ -> false)
+  | LSet -> (match b with
+             | LSet -> true
+             | _ -> false)
+  | LAny -> (match b with
+             | LAny -> true
+             | _ -> false)
+
+(** val lle : lvl -> lvl -> bool **)
+
+let lle a b =
+  match a with
+  | LClean -> true
+  | LSet -> (match b with
+             | LClean -> false
+             | _ -> true)
+  | LAny -> (match b with
+             | LAny -> true
+             | _ -> false)
+
+(** val lmax : lvl -> lvl -> lvl **)
+
+let lmax a b =
+  if lle a b then b else a
+
+type astate = (char list * lvl) list
+
+(** val aget : char list -> astate -> lvl **)
+
+let rec aget x = function
+| [] -> LAny
+| p :: r -> let (y, l) = p in if eqb0 x y then l else aget x r
+
+(** val aset : char list -> lvl -> astate -> astate **)
+
+let aset x l a =
+  map (fun yl -> if eqb0 x (fst yl) then ((fst yl), l) else yl) a
+
+(** val ajoin : astate -> astate -> astate **)
+
+let ajoin a b =
+  map (fun yl -> ((fst yl), (lmax (snd yl) (aget (fst yl) b)))) a
+
+(** val ale : astate -> astate -> bool **)
+
+let ale a b =
+  forallb (fun yl -> lle (aget (fst yl) a) (snd yl)) b
+
+(** val ai_loop :
+    (astate -> astate option) -> nat -> astate -> astate option **)
+
+let rec ai_loop body n0 sg =
+  match body sg with
+  | Some sg' ->
+    if ale sg' sg
+    then Some sg
+    else (match n0 with
+          | O -> None
+          | S k -> ai_loop body k (ajoin sg sg'))
+  | None -> None
+
+(** val loop_fuel : nat **)
+
+let loop_fuel =
+  S (S (S (S O)))
+
+(** val is_mem : char list list -> char list -> bool **)
+
+let is_mem ns x =
+  existsb (eqb0 x) ns
+
+(** val ids_ok : char list list -> char list list -> bool **)
+
+let ids_ok ns ids =
+  forallb (fun x -> negb (is_mem ns x)) ids
+
+(** val exp_ok : char list list -> cexp -> bool **)
+
+let exp_ok ns e =
+  ids_ok ns (exp_vars e)
+
+(** val decl_ok : char list list -> decl -> bool **)
+
+let decl_ok ns d =
+  (&&) (negb (is_mem ns d.d_name))
+    (match d.d_init with
+     | Some e -> exp_ok ns e
+     | None -> true)
+
+(** val fill_ok : char list list -> branch list -> astate -> bool **)
+
+let fill_ok ns brs sg =
+  forallb (fun b ->
+    (||) (negb (is_mem ns b.br_var)) (lle (aget b.br_var sg) LSet)) brs
+
+(** val awrite : char list list -> char list -> astate -> astate **)
+
+let awrite ns x sg =
+  if is_mem ns x then aset x LSet sg else sg
+
+(** val ai_stmt :
+    char list list -> branch list -> stmt -> astate -> astate option **)
+
+let ai_stmt ns brs =
+  let rec ai_stmt0 s sg =
+    match s with
+    | SSet (x, _, e) -> if exp_ok ns e then Some (awrite ns x sg) else None
+    | SPush (x, _, e) ->
+      if exp_ok ns e
+      then if is_mem ns x
+           then if lle (aget x sg) LSet then Some (aset x LSet sg) else None
+           else Some sg
+      else None
+    | SClear x ->
+      if is_mem ns x
+      then if lle (aget x sg) LSet then Some (aset x LClean sg) else None
+      else Some sg
+    | SFill _ -> if fill_ok ns brs sg then Some sg else None
+    | SThrow _ -> Some sg
+    | SFetch (_, target, _, _, _) -> Some (awrite ns target sg)
+    | SIota (v, b) ->
+      if (&&) (negb (is_mem ns v)) (negb (is_mem ns b)) then Some sg else None
+    | SUser (_, ids, target) ->
+      if (&&) (ids_ok ns ids)
+           (match target with
+            | Some t -> negb (is_mem ns t)
+            | None -> true)
+      then Some sg
+      else None
+    | SLine (_, ids) -> if ids_ok ns ids then Some sg else None
+    | SFor (x, e, b) ->
+      if (&&) (negb (is_mem ns x)) (exp_ok ns e)
+      then ai_loop (ai_block0 b) loop_fuel sg
+      else None
+    | SIf (c, b, els) ->
+      if exp_ok ns c
+      then (match ai_block0 b sg with
+            | Some s1 ->
+              (match match els with
+                     | Some b2 -> ai_block0 b2 sg
+                     | None -> Some sg with
+               | Some s2 -> Some (ajoin s1 s2)
+               | None -> None)
+            | None -> None)
+      else None
+    | SBlk b -> ai_block0 b sg
+  and ai_block0 b sg =
+    let Blk (ds, body) = b in
+    if forallb (decl_ok ns) ds then ai_stmts body sg else None
+  and ai_stmts l sg =
+    match l with
+    | SNil -> Some sg
+    | SCons (s, r) ->
+      (match ai_stmt0 s sg with
+       | Some sg' -> ai_stmts r sg'
+       | None -> None)
+  in ai_stmt0
+
+(** val ai_block :
+    char list list -> branch list -> block -> astate -> astate option **)
+
+let ai_block ns brs =
+  let rec ai_stmt0 s sg =
+    match s with
+    | SSet (x, _, e) -> if exp_ok ns e then Some (awrite ns x sg) else None
+    | SPush (x, _, e) ->
+      if exp_ok ns e
+      then if is_mem ns x
+           then if lle (aget x sg) LSet then Some (aset x LSet sg) else None
+           else Some sg
+      else None
+    | SClear x ->
+      if is_mem ns x
+      then if lle (aget x sg) LSet then Some (aset x LClean sg) else None
+      else Some sg
+    | SFill _ -> if fill_ok ns brs sg then Some sg else None
+    | SThrow _ -> Some sg
+    | SFetch (_, target, _, _, _) -> Some (awrite ns target sg)
+    | SIota (v, b) ->
+      if (&&) (negb (is_mem ns v)) (negb (is_mem ns b)) then Some sg else None
+    | SUser (_, ids, target) ->
+      if (&&) (ids_ok ns ids)
+           (match target with
+            | Some t -> negb (is_mem ns t)
+            | None -> true)
+      then Some sg
+      else None
+    | SLine (_, ids) -> if ids_ok ns ids then Some sg else None
+    | SFor (x, e, b) ->
+      if (&&) (negb (is_mem ns x)) (exp_ok ns e)
+      then ai_loop (ai_block0 b) loop_fuel sg
+      else None
+    | SIf (c, b, els) ->
+      if exp_ok ns c
+      then (match ai_block0 b sg with
+            | Some s1 ->
+              (match match els with
+                     | Some b2 -> ai_block0 b2 sg
+                     | None -> Some sg with
+               | Some s2 -> Some (ajoin s1 s2)
+               | None -> None)
+            | None -> None)
+      else None
+    | SBlk b -> ai_block0 b sg
+  and ai_block0 b sg =
+    let Blk (ds, body) = b in
+    if forallb (decl_ok ns) ds then ai_stmts body sg else None
+  and ai_stmts l sg =
+    match l with
+    | SNil -> Some sg
+    | SCons (s, r) ->
+      (match ai_stmt0 s sg with
+       | Some sg' -> ai_stmts r sg'
+       | None -> None)
+  in ai_block0
+
+(** val nodupb : char list list -> bool **)
+
+let rec nodupb = function
+| [] -> true
+| x :: r -> (&&) (negb (existsb (eqb0 x) r)) (nodupb r)
+
+(** val member_names : program -> char list list **)
+
+let member_names p =
+  map (fun m -> m.m_name) p.p_members
+
+(** val initial_astate : program -> astate **)
+
+let initial_astate p =
+  map (fun m -> (m.m_name,
+    (if is_vector_type m.m_type then LClean else LAny))) p.p_members
+
+(** val final_ok : program -> astate -> bool **)
+
+let final_ok p sg =
+  forallb (fun m ->
+    if is_vector_type m.m_type
+    then lvl_eqb (aget m.m_name sg) LClean
+    else true) p.p_members
+
+(** val event_local_state : program -> astate option **)
+
+let event_local_state p =
+  ai_block (member_names p) p.p_branches p.p_body (initial_astate p)
+
+(** val event_local : program -> bool **)
+
+let event_local p =
+  (&&) (nodupb (member_names p))
+    (match event_local_state p with
+     | Some sg -> final_ok p sg
+     | None -> false)
+
+(** val lvl_name : lvl -> char list **)
+
+let lvl_name = function
+| LClean -> 'c'::('l'::('e'::('a'::('n'::[]))))
+| LSet -> 's'::('e'::('t'::[]))
+| LAny -> 'a'::('n'::('y'::[]))
+
+(** val s_astate : astate -> sexp **)
+
+let s_astate sg =
+  SList
+    (map (fun yl -> SList ((SAtom (fst yl)) :: ((SAtom
+      (lvl_name (snd yl))) :: []))) sg)
+
+(** val dg_block :
+    char list list -> branch list -> block -> astate -> (char list * astate)
+    option **)
+
+let dg_block ns brs =
+  let rec dg_stmt s sg =
+    match s with
+    | SSet (x, _, _) ->
+      (match ai_stmt ns brs s sg with
+       | Some _ -> None
+       | None ->
+         Some
+           ((append
+              ('a'::('s'::('s'::('i'::('g'::('n'::('m'::('e'::('n'::('t'::(' '::('r'::('e'::('a'::('d'::('s'::(' '::('a'::(' '::('m'::('e'::('m'::('b'::('e'::('r'::(':'::(' '::[])))))))))))))))))))))))))))
+              x), sg))
+    | SPush (x, _, _) ->
+      (match ai_stmt ns brs s sg with
+       | Some _ -> None
+       | None ->
+         Some
+           ((append
+              ('p'::('u'::('s'::('h'::('_'::('b'::('a'::('c'::('k'::(':'::(' '::[])))))))))))
+              x), sg))
+    | SClear x ->
+      (match ai_stmt ns brs s sg with
+       | Some _ -> None
+       | None ->
+         Some
+           ((append ('c'::('l'::('e'::('a'::('r'::(':'::(' '::[]))))))) x),
+           sg))
+    | SFill _ ->
+      if fill_ok ns brs sg
+      then None
+      else Some
+             (('f'::('i'::('l'::('l'::(' '::('w'::('i'::('t'::('h'::(' '::('a'::(' '::('b'::('r'::('a'::('n'::('c'::('h'::(' '::('v'::('a'::('r'::('i'::('a'::('b'::('l'::('e'::(' '::('p'::('o'::('s'::('s'::('i'::('b'::('l'::('y'::(' '::('l'::('e'::('f'::('t'::(' '::('f'::('r'::('o'::('m'::(' '::('a'::('n'::(' '::('e'::('a'::('r'::('l'::('i'::('e'::('r'::(' '::('e'::('v'::('e'::('n'::('t'::[]))))))))))))))))))))))))))))))))))))))))))))))))))))))))))))))),
+             sg)
+    | SFor (x, e, b) ->
+      if (&&) (negb (is_mem ns x)) (exp_ok ns e)
+      then (match dg_block0 b sg with
+            | Some d -> Some d
+            | None ->
+              (match ai_block ns brs b sg with
+               | Some sg' ->
+                 (match dg_block0 b (ajoin sg sg') with
+                  | Some d -> Some d
+                  | None ->
+                    (match ai_loop (ai_block ns brs b) loop_fuel sg with
+                     | Some _ -> None
+                     | None ->
+                       Some
+                         ((append
+                            ('n'::('o'::(' '::('l'::('o'::('o'::('p'::(' '::('i'::('n'::('v'::('a'::('r'::('i'::('a'::('n'::('t'::(':'::(' '::('f'::('o'::('r'::(' '::[])))))))))))))))))))))))
+                            x), sg)))
+               | None -> None))
+      else Some
+             ((append
+                ('l'::('o'::('o'::('p'::(' '::('r'::('a'::('n'::('g'::('e'::(' '::('o'::('r'::(' '::('v'::('a'::('r'::('i'::('a'::('b'::('l'::('e'::(' '::('m'::('e'::('n'::('t'::('i'::('o'::('n'::('s'::(' '::('a'::(' '::('m'::('e'::('m'::('b'::('e'::('r'::(':'::(' '::('f'::('o'::('r'::(' '::[]))))))))))))))))))))))))))))))))))))))))))))))
+                x), sg)
+    | SIf (c, b, els) ->
+      if exp_ok ns c
+      then (match dg_block0 b sg with
+            | Some d -> Some d
+            | None ->
+              (match els with
+               | Some b2 -> dg_block0 b2 sg
+               | None -> None))
+      else Some
+             (('c'::('o'::('n'::('d'::('i'::('t'::('i'::('o'::('n'::(' '::('r'::('e'::('a'::('d'::('s'::(' '::('a'::(' '::('m'::('e'::('m'::('b'::('e'::('r'::[])))))))))))))))))))))))),
+             sg)
+    | SBlk b -> dg_block0 b sg
+    | _ ->
+      (match ai_stmt ns brs s sg with
+       | Some _ -> None
+       | None ->
+         Some
+           (('o'::('p'::('a'::('q'::('u'::('e'::(' '::('l'::('i'::('n'::('e'::(' '::('o'::('r'::(' '::('i'::('o'::('t'::('a'::(' '::('m'::('e'::('n'::('t'::('i'::('o'::('n'::('s'::(' '::('a'::(' '::('m'::('e'::('m'::('b'::('e'::('r'::[]))))))))))))))))))))))))))))))))))))),
+           sg))
+  and dg_block0 b sg =
+    let Blk (ds, body) = b in
+    if forallb (decl_ok ns) ds
+    then dg_stmts body sg
+    else Some
+           (('d'::('e'::('c'::('l'::('a'::('r'::('a'::('t'::('i'::('o'::('n'::(' '::('s'::('h'::('a'::('d'::('o'::('w'::('s'::(' '::('o'::('r'::(' '::('r'::('e'::('a'::('d'::('s'::(' '::('a'::(' '::('m'::('e'::('m'::('b'::('e'::('r'::[]))))))))))))))))))))))))))))))))))))),
+           sg)
+  and dg_stmts l sg =
+    match l with
+    | SNil -> None
+    | SCons (s, r) ->
+      (match dg_stmt s sg with
+       | Some d -> Some d
+       | None ->
+         (match ai_stmt ns brs s sg with
+          | Some sg' -> dg_stmts r sg'
+          | None -> Some (('?'::[]), sg)))
+  in dg_block0
+
+(** val run_event_local : sexp -> sexp **)
+
+let run_event_local s =
+  match d_program s with
+  | Some p ->
+    let ns = member_names p in
+    if event_local p
+    then s_tag ('o'::('k'::[])) ((s_bool true) :: ((SAtom
+           []) :: ((match event_local_state p with
+                    | Some sg -> s_astate sg
+                    | None -> SList []) :: [])))
+    else if negb (nodupb ns)
+         then s_tag ('o'::('k'::[])) ((s_bool false) :: ((SAtom
+                ('d'::('u'::('p'::('l'::('i'::('c'::('a'::('t'::('e'::(' '::('m'::('e'::('m'::('b'::('e'::('r'::(' '::('n'::('a'::('m'::('e'::('s'::[]))))))))))))))))))))))) :: ((SList
+                []) :: [])))
+         else (match dg_block ns p.p_branches p.p_body (initial_astate p) with
+               | Some p0 ->
+                 let (why, sg) = p0 in
+                 s_tag ('o'::('k'::[])) ((s_bool false) :: ((SAtom
+                   why) :: ((s_astate sg) :: [])))
+               | None ->
+                 (match event_local_state p with
+                  | Some sg ->
+                    s_tag ('o'::('k'::[])) ((s_bool false) :: ((SAtom
+                      ('a'::(' '::('v'::('e'::('c'::('t'::('o'::('r'::(' '::('m'::('e'::('m'::('b'::('e'::('r'::(' '::('m'::('a'::('y'::(' '::('b'::('e'::(' '::('n'::('o'::('n'::('-'::('e'::('m'::('p'::('t'::('y'::(' '::('a'::('t'::(' '::('t'::('h'::('e'::(' '::('e'::('n'::('d'::(' '::('o'::('f'::(' '::('t'::('h'::('e'::(' '::('e'::('v'::('e'::('n'::('t'::[]))))))))))))))))))))))))))))))))))))))))))))))))))))))))) :: (
+                      (s_astate sg) :: [])))
+                  | None ->
+                    s_tag ('o'::('k'::[])) ((s_bool false) :: ((SAtom
+                      ('r'::('e'::('j'::('e'::('c'::('t'::('e'::('d'::[]))))))))) :: ((SList
+                      []) :: [])))))
+  | None -> bad_input
+
 (** val dispatch : char list -> sexp -> sexp **)
 
 let dispatch cmd arg =
@@ -7877,6 +8312,9 @@ let dispatch cmd arg =
             else if eqb0 cmd
                       ('c'::('p'::('p'::('.'::('r'::('u'::('n'::[])))))))
                  then run_run arg
-                 else s_tag
-                        ('u'::('n'::('k'::('n'::('o'::('w'::('n'::('-'::('c'::('o'::('m'::('m'::('a'::('n'::('d'::[])))))))))))))))
-                        ((SAtom cmd) :: [])
+                 else if eqb0 cmd
+                           ('c'::('0'::('5'::('.'::('e'::('v'::('e'::('n'::('t'::('_'::('l'::('o'::('c'::('a'::('l'::[])))))))))))))))
+                      then run_event_local arg
+                      else s_tag
+                             ('u'::('n'::('k'::('n'::('o'::('w'::('n'::('-'::('c'::('o'::('m'::('m'::('a'::('n'::('d'::[])))))))))))))))
+                             ((SAtom cmd) :: [])
